@@ -75,6 +75,13 @@ func (p *PhyPort) MarshalBinary() (data []byte, err error) {
 }
 
 func (p *PhyPort) UnmarshalBinary(data []byte) error {
+	// A zero-value PhyPort (as embedded in a freshly allocated PortStatus) has no address/name buffers yet.
+	if len(p.HWAddr) != ETH_ALEN {
+		p.HWAddr = make([]byte, ETH_ALEN)
+	}
+	if len(p.Name) != MAX_PORT_NAME_LEN {
+		p.Name = make([]byte, MAX_PORT_NAME_LEN)
+	}
 	p.PortNo = binary.BigEndian.Uint32(data)
 	n := 4
 	copy(p.pad, data[n:n+4])
